@@ -321,6 +321,9 @@ func checkMain(args []string) int {
 		}
 		j.Known = knownIDs
 		j.Solver = "z3-new"
+		if s, ok := sp.SolverFor[j.Fn]; ok {
+			j.Solver = s
+		}
 		if s := os.Getenv("VF_SOLVER"); s != "" {
 			j.Solver = s
 		}
@@ -375,8 +378,13 @@ func checkMain(args []string) int {
 		replayClass = "N"
 	}
 	initNotes := map[string]bool{}
+	propClass := replayClass
 	for i, r := range results {
 		j := jobs[i]
+		replayClass := propClass
+		if sp.ReplayE[j.Fn] {
+			replayClass = "E"
+		}
 		st := r.Stats
 		total.Paths += st.Paths
 		for k, v := range st.PathsByEnd {
